@@ -8,6 +8,7 @@ import socket
 import struct
 import ipaddress
 
+import gevent
 from hypothesis import strategies as st
 
 from vf import hyp
@@ -60,13 +61,28 @@ class ShortSocket(object):
         return -1
 
 
+class YieldSocket(ShortSocket):
+    """ShortSocket whose every read is a switch point (as a real socket read is under gevent)."""
+
+    def __init__(self, data, sizes, yields):
+        super(YieldSocket, self).__init__(data, sizes)
+        self.yields = list(yields) or [1]
+
+    def recv_into(self, buf, nbytes=0, flags=0):
+        for _ in range(self.yields[self.calls % len(self.yields)]):
+            gevent.sleep(0)
+        return super(YieldSocket, self).recv_into(buf, nbytes, flags)
+
+
 class _Base(EdgeServer):
     def __init__(self):
         super(_Base, self).__init__(None, None, hostname='h')
         self.calls = []
+        self.by_sock = {}
 
     def handle(self, sock, addr):
         self.calls.append((addr, sock.pos))
+        self.by_sock.setdefault(id(sock), []).append((addr, sock.pos))
 
 
 class V1Edge(ProxyProtocolV1, _Base):
@@ -363,6 +379,44 @@ def corrupt_case(draw):
     return bytes(data), draw(_sizes), mode, how
 
 
+def judge_concurrent(conns, mode):
+    """conns: list of (data, sizes, yields). Several connections are handled by one edge at the same time; every read is a switch
+    point. Each connection must get exactly the result it gets when handled alone."""
+    alone = []
+    for data, sizes, _ in conns:
+        edge = EDGES[mode]()
+        sock = ShortSocket(data, sizes)
+        try:
+            edge.handle(sock, ('orig', 1))
+            alone.append((list(edge.calls), sock.pos, None))
+        except BaseException as e:
+            alone.append((None, None, type(e).__name__))
+    edge = EDGES[mode]()
+    socks = [YieldSocket(d, sz, y) for d, sz, y in conns]
+    errs = [None] * len(conns)
+
+    def run(k):
+        try:
+            edge.handle(socks[k], ('orig', 1))
+        except BaseException as e:
+            errs[k] = type(e).__name__
+    gs = [gevent.spawn(run, k) for k in range(len(conns))]
+    gevent.joinall(gs, timeout=10)
+    out = []
+    for k, (data, sizes, y) in enumerate(conns):
+        if not gs[k].dead:
+            gs[k].kill(block=False)
+            out.append(('C18:concurrent-handle-hangs:' + mode, '%r' % data[:60]))
+            continue
+        got = (edge.by_sock.get(id(socks[k]), []), socks[k].pos, errs[k])
+        if alone[k][2] is None and got != alone[k]:
+            out.append(('C18:concurrent-connections-interfere:' + mode,
+                        'connection %d %r sizes=%r: alone -> %r, next to %d other connection(s) -> %r'
+                        % (k, data[:60], sizes[:6], alone[k], len(conns) - 1, got)))
+            break
+    return out
+
+
 def case_json(data, sizes, mode):
     return {'data': hexb(data), 'sizes': list(sizes)[:16], 'mode': mode}
 
@@ -426,10 +480,36 @@ def run_substitutions(ctx):
                            case=lambda: case_json(data, [3], mode), failures=f)
 
 
+@st.composite
+def concurrent_case(draw):
+    mode = draw(st.sampled_from(['auto', 'auto', 'v1', 'v2']))
+    conns = []
+    for _ in range(draw(st.integers(2, 3))):
+        if draw(st.integers(0, 3)) == 0:
+            data, sizes, _, _ = draw(corrupt_case())
+        else:
+            data, sizes, _, _ = draw(valid_case())
+        if sizes == [1 << 20] and draw(st.booleans()):
+            sizes = draw(st.lists(st.integers(1, 9), min_size=1, max_size=4))
+        conns.append((data, sizes, draw(st.lists(st.integers(0, 2), min_size=1, max_size=4))))
+    return conns, mode
+
+
+def run_concurrent(ctx, n):
+    def one(v):
+        conns, mode = v
+        f = judge_concurrent(conns, mode)
+        ctx.record((tuple((d, tuple(sz), tuple(y)) for d, sz, y in conns), mode), any(sz != [1 << 20] for _, sz, _ in conns),
+                   labels=['concurrent', mode], case=lambda: {'concurrent': [[hexb(d), list(sz)[:16], list(y)] for d, sz, y in conns],
+                                                            'mode': mode}, failures=f)
+    hyp.drive(ctx, concurrent_case(), one, n, salt=2)
+
+
 def run_shard(ctx):
     if ctx.thorough:
         from vf import fuzz
         fuzz.run(ctx, ID, 90, FUZZ_SEEDS)
+    run_concurrent(ctx, ctx.n(4000, 80000))
     run_substitutions(ctx)
     run_valid(ctx, ctx.n(30000, 1000000))
     run_corrupt(ctx, ctx.n(30000, 1500000))
@@ -440,6 +520,12 @@ def replay(case):
     mode = case.get('mode')
     if mode not in EDGES:
         return []
+    if 'concurrent' in case:
+        conns = [(unhex(c[0]), [max(1, int(x)) for x in c[1]] or [1 << 20], [max(0, min(3, int(x))) for x in c[2]] or [1])
+                 for c in case['concurrent'] if isinstance(c, list) and len(c) == 3]
+        if len(conns) < 2:
+            return []
+        return judge_concurrent(conns, mode)
     return judge(unhex(case['data']), sizes, mode)
 
 
